@@ -44,7 +44,8 @@
      * contents are shorter than one hashing chunk (2^20 bytes), so the dos2unix heuristic looks
        at the first 512 bytes of the whole content (chunking is C14);
      * copies get mode 0o644 (umask 022, pinned by the harness) and a fresh inode;
-     * uploads never fail (the fault model is C04/C11), no remote index, verify=False;
+     * uploads never fail (the fault model is C04/C11), no remote index; verify only as the flag of
+       transfer (HashFileDB.add's post-add check; the pre-add check sees no object: the ids are new);
      * within one transfer the adds are grouped "all files, then the directory objects" - the real
        code interleaves them per directory in set-iteration order; the resulting store is the
        same, only the (unobservable) inode numbers differ;
